@@ -69,7 +69,12 @@ pub fn split(ctx: &mut Ctx) {
     // ---------------- CLI level, in memory
     let n_arch = if ctx.thorough { 30 } else { 5 };
     for ai in 0..n_arch {
-        let (full, desc, cfg) = gen::gen_archive(&mut rng, 3, if ai % 2 == 0 { 90 } else { 400 });
+        // every second archive is encrypted (a part boundary inside an IV, a cipher block or a compressed frame must not matter)
+        let (mut full, mut desc, mut cfg) = gen::gen_archive(&mut rng, 3, if ai % 2 == 0 { 90 } else { 400 });
+        for _ in 0..20 {
+            if ai % 2 == 0 || (cfg.enc != 0 && full.len() > 200) { break; }
+            (full, desc, cfg) = gen::gen_archive(&mut rng, 3, 400);
+        }
         let pw = if cfg.enc != 0 { Some(cfg.password.clone()) } else { None };
         let orig = refdec::strict_archive(&full, vec![], false).expect("generated archive is well-formed");
         let (orig_chunks, _) = refdec::chunks(&full).unwrap();
@@ -140,7 +145,7 @@ pub fn split(ctx: &mut Ctx) {
                             ctx.violation("C04", "library reads different entries from the parts than from the original archive", json!({"archive":desc,"max":max,"parts":ms[..ms.len().min(300)].to_string(),"original":one[..one.len().min(300)].to_string()}));
                         }
                         // decoded contents survive (cuts inside IV / cipher block / compressed frame)
-                        if max % 7 == 0 || n <= 3 {
+                        if pw.is_some() || max % 7 == 0 || n <= 3 {
                             let refs: Vec<&[u8]> = parts.iter().map(|p| &p[..]).collect();
                             if let Err(e) = decode_all_multipart(&refs, pw.as_deref(), &full) {
                                 ctx.violation("C04", "contents decoded from the parts differ from the original", json!({"archive":desc,"max":max,"why":e}));
